@@ -5,17 +5,19 @@
    tree grammar, its spelling as structured lines and the pre-token tree / HTML expected
    from it.  Nothing here uses the tokenizer. *)
 From Coq Require Import ZArith List Bool Lia.
-From Mistletoe Require Import Base.Sx Base.PyStr Base.PyText Model.Block Proofs.ListLaw Proofs.MixPhrases Proofs.ProseLines Proofs.HardBreaks Proofs.BreakBlocks.
+From Mistletoe Require Import Base.Sx Base.PyStr Base.PyText Model.Block Proofs.ListLaw Proofs.EmphPhrases Proofs.MixPhrases Proofs.ProseLines Proofs.HardBreaks Proofs.BreakBlocks.
 Import ListNotations.
 Local Open Scope Z_scope.
 
-(* one inline element of a one-line paragraph (leaf FOne): a struck-through phrase, a backslash escape, an image *)
-Inductive inl := IStrike (w : str) | IEsc (c : Z) | IImg (w dest : str).
+(* one inline element of a one-line paragraph (leaf FOne): a struck-through phrase, a backslash escape, an image, nested emphasis *)
+Inductive inl := IStrike (w : str) | IEsc (c : Z) | IImg (w dest : str)
+  | INest (ch : Z) (k : nat) (h : str) (ps : list EmphPhrases.phrase) (z : str).     (* an emphasised phrase holding emphasised phrases *)
 Definition inl_text (x : inl) : str :=
   match x with
   | IStrike w => [126; 126] ++ w ++ [126; 126]
   | IEsc c => [92; c]
   | IImg w d => [33; 91] ++ w ++ [93; 40] ++ d ++ [41]
+  | INest ch k h ps z => repeat ch (S k) ++ (h ++ EmphPhrases.body ps ++ z) ++ repeat ch (S k)
   end.
 Definition one_body (pre : str) (x : inl) (post : str) : str := pre ++ inl_text x ++ post.
 
